@@ -1,9 +1,34 @@
 package main
 
-import "symgo/interp"
+import (
+	"strings"
+	"sync"
+	"time"
 
-// confirmSchedule replays schedule-dependent findings (filled in with the
-// concurrent properties).
+	"symgo/interp"
+)
+
+var (
+	raceOnce  sync.Once
+	raceBuild *nativeBuild
+)
+
+// confirmSchedule replays a race finding: the harness package is built with
+// the Go race detector and the instance is run (a few times) on the model's
+// inputs; the finding is confirmed when the detector reports a data race
+// whose stacks mention the function of one of the two accesses.
 func confirmSchedule(scratch string, fam *Family, inst Instance, v interp.Violation) (bool, string) {
-	return false, "no schedule replay available for this kind yet"
+	raceOnce.Do(func() { raceBuild = buildNative(scratch, fam, true) })
+	if raceBuild.err != nil {
+		return false, raceBuild.err.Error()
+	}
+	var out string
+	for t := 0; t < 8; t++ {
+		r := raceBuild.run(inst.Func, v.Model, 60*time.Second)
+		out = r.out
+		if strings.Contains(r.out, "WARNING: DATA RACE") {
+			return true, r.out
+		}
+	}
+	return false, out
 }
